@@ -255,6 +255,16 @@ def check(chk: Check) -> None:
                     continue
                 problems5.append('`%s` (line %d) reads the host mapping as a whole: every key it holds is asked for, whether the program '
                                  'mentions it or not' % (e.text(), e.line))
+            # a membership test against the host mapping while the scope stack is set up (`name in names` for every builtin, to
+            # report shadowing): the host is asked about names the program never mentions
+            terms_ = [freeze(v_) for k_, v_ in e.d.items() if k_ in ('args', 'kwargs', 'value', 'cond', 'result', 'index')]
+            if e.kind != 'assume' or not (isinstance(freeze(e.cond), tuple) and freeze(e.cond)[:2] == ('cmp', 'is')):
+                hit_ = _membership_on(terms_, hp)
+                if hit_ is not None:
+                    n5 += 1
+                    problems5.append('`%s` (line %d) tests %s for membership in the host mapping before any program runs' % (e.text()[:80], e.line, show(hit_)[:60]))
+            if e.kind == 'call':
+                pass
             elif e.kind in ('load_sub', 'loop_test', 'loop_skip') and om.mentions(freeze(e.d.get('obj', e.d.get('iter'))), hp):
                 n5 += 1
                 problems5.append('`%s` (line %d) accesses the host mapping outside the scope stack' % (e.text()[:80], e.line))
@@ -290,6 +300,18 @@ def check(chk: Check) -> None:
         chk.require(not problems, R3, 'template ' + t.key, where, '; '.join(sorted(set(problems))) or t.show()[:100])
     chk.extra['implicit_names_used'] = sorted(used_implicit)
     chk.extra['looked_up_fields'] = sorted('%s.%s' % (c.rsplit('.', 1)[-1], f) for c, f in looked)
+
+
+def _membership_on(terms, hp):
+    """The left operand of a `x in <host mapping>` test occurring anywhere in the terms, else None."""
+    stack = list(terms)
+    while stack:
+        t = stack.pop()
+        if isinstance(t, tuple):
+            if t[:1] == ('cmp',) and len(t) == 4 and t[1] in ('in', 'not in') and t[3] == hp:
+                return t[2]
+            stack.extend(x for x in t if isinstance(x, tuple))
+    return None
 
 
 def identifier_prefix_thieves(lm, IDENT) -> List[str]:
